@@ -207,4 +207,170 @@ theorem code_roundtrip (z : S2) (hz : S2Law z) (es : List Entry) (hv : ∀ e ∈
   rw [decData_encodeData es raw hraw hv (raw.length + 1) hlen]
   rfl
 
+/-! ### `Index.Encode` / `Index.Decode` -/
+
+def ofIT (t : Bytes × Bytes × Nat × Nat) : IndexEntry := { startKey := t.1, endKey := t.2.1, h := ⟨t.2.2.1, t.2.2.2⟩ }
+def toIT (e : IndexEntry) : Bytes × Bytes × Nat × Nat := (e.startKey, e.endKey, (e.h.off, e.h.len))
+
+theorem ofIT_toIT (e : IndexEntry) : ofIT (toIT e) = e := by cases e with | mk s e h => cases h; rfl
+theorem toIT_ofIT (t : Bytes × Bytes × Nat × Nat) : toIT (ofIT t) = t := rfl
+
+theorem encIndex_loop (k : Bytes → Option Bytes) (es : List (Bytes × Bytes × Nat × Nat)) (buf : Bytes) :
+    List.foldr (fun (entry : Bytes × Bytes × Nat × Nat) kont1 => fun (buf : Bytes) =>
+        if (decide (65535 < entry.1.length) || decide (65535 < entry.2.1.length)) = true then none
+        else kont1 (buf ++ encLE 2 entry.1.length ++ entry.1 ++ encLE 2 entry.2.1.length ++ entry.2.1 ++ encLE 8 entry.2.2.1 ++ encLE 8 entry.2.2.2))
+      k es buf =
+    if es.all (fun e => decide (e.1.length ≤ 65535) && decide (e.2.1.length ≤ 65535)) then k (buf ++ encIndexEntries (es.map ofIT)) else none := by
+  induction es generalizing buf with
+  | nil => simp [encIndexEntries]
+  | cons e es ih =>
+    simp only [List.foldr_cons, List.all_cons, List.map_cons, encIndexEntries]
+    by_cases hbig : (decide (65535 < e.1.length) || decide (65535 < e.2.1.length)) = true
+    · have : (decide (e.1.length ≤ 65535) && decide (e.2.1.length ≤ 65535)) = false := by
+        simp only [Bool.or_eq_true, decide_eq_true_eq] at hbig
+        simp only [Bool.and_eq_false_iff, decide_eq_false_iff_not]
+        omega
+      simp [hbig, this]
+    · have hsmall : (decide (e.1.length ≤ 65535) && decide (e.2.1.length ≤ 65535)) = true := by
+        simp only [Bool.or_eq_true, decide_eq_true_eq, not_or] at hbig
+        simp only [Bool.and_eq_true, decide_eq_true_eq]
+        omega
+      simp only [hbig, Bool.false_eq_true, ↓reduceIte, hsmall, Bool.true_and]
+      rw [ih]
+      simp [encIndexEntry, ofIT, List.append_assoc]
+
+/-- the translated `Index.Encode`: an error exactly when a start or end key does not fit its 16-bit length field, otherwise the
+    compressed model encoding `encIndex` -/
+theorem encodeIndex_eq (comp : Bytes → Bytes) (off len : Nat) (es : List (Bytes × Bytes × Nat × Nat)) :
+    GenCodec.encodeIndex comp off len es =
+      if es.all (fun e => decide (e.1.length ≤ 65535) && decide (e.2.1.length ≤ 65535))
+      then some (comp (encIndex { dataBlock := ⟨off, len⟩, entries := es.map ofIT })) else none := by
+  unfold GenCodec.encodeIndex
+  simp only [Bool.false_eq_true, ↓reduceIte, List.append_assoc, List.nil_append]
+  have := encIndex_loop (fun b => some (comp b)) es (encLE 8 off ++ encLE 8 len)
+  simp only [List.append_assoc] at this
+  rw [this]
+  simp [encIndex, List.append_assoc]
+
+theorem decIndexEntry_shrinks (bs : Bytes) (e : IndexEntry) (rest : Bytes) (h : decIndexEntry bs = some (e, rest)) : rest.length < bs.length := by
+  unfold decIndexEntry at h
+  simp only [Option.bind_eq_some_iff] at h
+  obtain ⟨r1, h1, r2, h2, r3, h3, r4, h4, r5, h5, r6, h6, h7⟩ := h
+  have l1 := decLE_length 2 bs r1.1 r1.2 h1
+  have l3 := decLE_length 2 _ r3.1 r3.2 h3
+  have l5 := decLE_length 8 _ r5.1 r5.2 h5
+  have l6 := decLE_length 8 _ r6.1 r6.2 h6
+  have l2 : r2.2.length ≤ r1.2.length := by
+    unfold readN at h2; split at h2
+    · cases h2
+    · cases h2; simp
+  have l4 : r4.2.length ≤ r3.2.length := by
+    unfold readN at h4; split at h4
+    · cases h4
+    · cases h4; simp
+  simp only [Option.some.injEq, Prod.mk.injEq] at h7
+  rw [← h7.2]
+  omega
+
+theorem ix_loop_step (exit : Bytes → Bool → Nat → Nat → List (Bytes × Bytes × Nat × Nat) → Option ((Nat × Nat) × List (Bytes × Bytes × Nat × Nat)))
+    (fuel : Nat) (b : UInt8) (bs : Bytes) (off len : Nat) (acc : List (Bytes × Bytes × Nat × Nat)) :
+    GenCodec.decodeIndex.loop1 exit (fuel + 1) (b :: bs) false off len acc =
+      match decIndexEntry (b :: bs) with
+      | none => none
+      | some (e, rest) => GenCodec.decodeIndex.loop1 exit fuel rest false off len (acc ++ [toIT e]) := by
+  rw [GenCodec.decodeIndex.loop1]
+  simp only [List.length_cons, Nat.zero_lt_succ, decide_true, ↓reduceIte]
+  unfold decIndexEntry
+  cases h1 : decLE 2 (b :: bs) with
+  | none => simp [GenCodec.rdN, GenCodec.rdB, h1]
+  | some r1 =>
+    cases h2 : readN r1.1 r1.2 with
+    | none =>
+      have : r1.2.length < r1.1 := by unfold readN at h2; split at h2 <;> simp_all
+      simp [GenCodec.rdN, GenCodec.rdB, h1, h2, this]
+    | some r2 =>
+      have h2' : ¬ r1.2.length < r1.1 ∧ r2 = (r1.2.take r1.1, r1.2.drop r1.1) := by
+        unfold readN at h2; split at h2
+        · cases h2
+        · rename_i hh; exact ⟨hh, by cases h2; rfl⟩
+      obtain ⟨h2a, rfl⟩ := h2'
+      cases h3 : decLE 2 (r1.2.drop r1.1) with
+      | none => simp [GenCodec.rdN, GenCodec.rdB, h1, h2, h2a, h3]
+      | some r3 =>
+        cases h4 : readN r3.1 r3.2 with
+        | none =>
+          have : r3.2.length < r3.1 := by unfold readN at h4; split at h4 <;> simp_all
+          simp [GenCodec.rdN, GenCodec.rdB, h1, h2, h2a, h3, h4, this]
+        | some r4 =>
+          have h4' : ¬ r3.2.length < r3.1 ∧ r4 = (r3.2.take r3.1, r3.2.drop r3.1) := by
+            unfold readN at h4; split at h4
+            · cases h4
+            · rename_i hh; exact ⟨hh, by cases h4; rfl⟩
+          obtain ⟨h4a, rfl⟩ := h4'
+          cases h5 : decLE 8 (r3.2.drop r3.1) with
+          | none => simp [GenCodec.rdN, GenCodec.rdB, h1, h2, h2a, h3, h4, h4a, h5]
+          | some r5 =>
+            cases h6 : decLE 8 r5.2 with
+            | none => simp [GenCodec.rdN, GenCodec.rdB, h1, h2, h2a, h3, h4, h4a, h5, h6]
+            | some r6 => simp [GenCodec.rdN, GenCodec.rdB, h1, h2, h2a, h3, h4, h4a, h5, h6, toIT]
+
+theorem ix_loop_eq (fuel : Nat) (bs : Bytes) (off len : Nat) (acc : List (Bytes × Bytes × Nat × Nat)) (hf : bs.length < fuel) :
+    GenCodec.decodeIndex.loop1 (fun _ _ dbOff dbLen entries => some ((dbOff, dbLen), entries)) fuel bs false off len acc =
+      (decIndexEntries fuel bs).map fun es => ((off, len), acc ++ es.map toIT) := by
+  induction fuel generalizing bs acc with
+  | zero => omega
+  | succ f ih =>
+    cases bs with
+    | nil => simp [GenCodec.decodeIndex.loop1, decIndexEntries]
+    | cons b bs =>
+      rw [ix_loop_step, decIndexEntries]
+      cases hd : decIndexEntry (b :: bs) with
+      | none => rfl
+      | some er =>
+        obtain ⟨e, rest⟩ := er
+        have hs := decIndexEntry_shrinks (b :: bs) e rest hd
+        simp only
+        rw [ih rest (acc ++ [toIT e]) (by simp only [List.length_cons] at hf hs; omega)]
+        cases decIndexEntries f rest <;> simp
+
+/-- the translated `Index.Decode` is the model's decoder whenever the sixteen header bytes are there (on a shorter input the Go
+    code returns nil with whatever it could read — no encoder output is that short) -/
+theorem decodeIndex_eq (decomp : Bytes → Option Bytes) (data raw : Bytes) (o0 l0 : Nat) (es0 : List (Bytes × Bytes × Nat × Nat))
+    (hd : decomp data = some raw) (r1 r2 : Nat × Bytes) (h1 : decLE 8 raw = some r1) (h2 : decLE 8 r1.2 = some r2) :
+    GenCodec.decodeIndex decomp data o0 l0 es0 =
+      (decIndex (raw.length + 1) raw).map fun i => ((i.dataBlock.off, i.dataBlock.len), es0 ++ i.entries.map toIT) := by
+  unfold GenCodec.decodeIndex decIndex
+  have l1 := decLE_length 8 raw r1.1 r1.2 h1
+  have l2 := decLE_length 8 _ r2.1 r2.2 h2
+  simp only [hd, Option.isNone_some, Bool.false_eq_true, ↓reduceIte, Option.getD_some, GenCodec.rdN, h1, h2, Option.bind_some]
+  rw [ix_loop_eq _ _ _ _ _ (by omega)]
+  cases decIndexEntries (raw.length + 1) r2.2 <;> simp
+
+/-- round trip of the translated index codec -/
+theorem index_code_roundtrip (z : S2) (hz : S2Law z) (off len : Nat) (es : List (Bytes × Bytes × Nat × Nat))
+    (hw : IndexWF { dataBlock := ⟨off, len⟩, entries := es.map ofIT }) (b : Bytes)
+    (h : GenCodec.encodeIndex z.comp off len es = some b) (o0 l0 : Nat) :
+    GenCodec.decodeIndex z.decomp b o0 l0 [] = some ((off, len), es) := by
+  rw [encodeIndex_eq] at h
+  split at h
+  · injection h with h
+    subst h
+    have hraw : z.decomp (z.comp (encIndex { dataBlock := ⟨off, len⟩, entries := es.map ofIT })) = some _ := hz.single _
+    obtain ⟨⟨ho, hl⟩, _⟩ := hw
+    have e1 : decLE 8 (encIndex { dataBlock := ⟨off, len⟩, entries := es.map ofIT }) = some (off, encLE 8 len ++ encIndexEntries (es.map ofIT)) := by
+      unfold encIndex; simp only [List.append_assoc]; exact decLE_encLE 8 _ _ (by simpa using ho)
+    have e2 : decLE 8 (encLE 8 len ++ encIndexEntries (es.map ofIT)) = some (len, encIndexEntries (es.map ofIT)) :=
+      decLE_encLE 8 _ _ (by simpa using hl)
+    rw [decodeIndex_eq z.decomp _ _ o0 l0 [] hraw _ _ e1 e2]
+    have hlen : (es.map ofIT).length ≤ (encIndex { dataBlock := ⟨off, len⟩, entries := es.map ofIT }).length + 1 := by
+      have : ∀ l : List IndexEntry, l.length ≤ (encIndexEntries l).length := by
+        intro l; induction l with
+        | nil => simp [encIndexEntries]
+        | cons e l ih => simp only [encIndexEntries, encIndexEntry, List.length_append, List.length_cons, encLE]; omega
+      have := this (es.map ofIT)
+      unfold encIndex; simp only [List.length_append]; omega
+    rw [decIndex_encIndex _ ⟨⟨ho, hl⟩, by assumption⟩ _ hlen]
+    simp [List.map_map, Function.comp_def, toIT_ofIT]
+  · cases h
+
 end CodecTie
